@@ -162,6 +162,45 @@ def obligations(tier, seed):
         obs.append(Ob(f"fixture.{os.path.basename(path).split('.')[0]}", build(params, body, setup=SETUP + f"DATA = {data!r}\n"),
                       f"{os.path.basename(path)} loaded twice: mutating one copy (every attribute group, in place) changes neither the other copy nor a copy loaded afterwards",
                       group="fixture", shape=f"fixture {os.path.basename(path)} ({mt}) loaded three times", symbolic=f"{len(params)} symbolic values", timeout=300))
+    # concrete twins of the pair obligations (engine C).  Aliasing is structural, so a concrete run decides it as well as a symbolic
+    # one; the twin exists because CrossHair itself bypasses functools caches (crosshair/libimpl/functoolslib.py), so state shared
+    # through a cache would be invisible to the symbolic run.
+    def concretise(params, rnd_):
+        out = []
+        for n_, t_, pre_ in params:
+            if t_ == "bool":
+                out.append(f"    {n_} = {rnd_.choice([True, False])}")
+            else:
+                import re as _re
+                nums = [int(x) for x in _re.findall(r"-?\d+", pre_ or "0 1")]
+                lo_, hi_ = (min(nums), max(nums)) if nums else (0, 1)
+                out.append(f"    {n_} = {rnd_.randint(lo_, min(hi_, lo_ + 200))}")
+        return "\n".join(out)
+    for path in fx if tier == "thorough" else must:
+        import rv.api as _api
+        mt = _api.read_sunvox_file(path).module.mtype
+        params, lines = mutate_code(mt, rnd, tier)
+        code = "\n".join("    " + l for l in lines)
+        data = open(path, "rb").read()
+        src = "from vf.prelude import *\n" + SETUP + f"DATA = {data!r}\n" + f"""
+
+def h():
+{concretise(params, rnd)}
+    a = load_bytes(DATA).module
+    b = load_bytes(DATA).module
+    s0 = snap_module(b, groups={GROUPS})
+    y0 = save_bytes(Synth(b))
+    c1 = a.clone()
+    c2 = a.clone()
+    sc = snap_module(c2, groups={GROUPS})
+{code}
+    c = load_bytes(DATA).module
+    ok = same(s0, snap_module(b, groups={GROUPS})) and same(s0, snap_module(c, groups={GROUPS})) and y0 == save_bytes(Synth(b))
+    # clones taken before the mutation are independent of the original and of each other
+    return ok and same(sc, snap_module(c1, groups={GROUPS})) and same(sc, snap_module(c2, groups={GROUPS}))
+"""
+        obs.append(Ob(f"concrete.fixture.{os.path.basename(path).split('.')[0]}", src, f"{os.path.basename(path)}: concrete twin of the fixture-pair obligation, plus two clones taken before the mutation (real functools caches in force)",
+                      engine="C", group="fixture", shape=f"fixture {os.path.basename(path)} loaded three times, cloned twice; seeded concrete mutation values"))
     # cross-type pairs that share a chunk class
     for a_t, b_t, mut in (("Generator", "Analog generator", "a.drawn_waveform.samples[3] = v"), ("Analog generator", "Generator", "a.drawn_waveform.samples[3] = v"),
                           ("MultiCtl", "WaveShaper", "a.curve.values[9] = v"), ("WaveShaper", "MultiCtl", "a.curve.values[9] = v"),
